@@ -714,6 +714,31 @@ func (ec *evalCtx) call(x *ast.CallExpr) (T, types.Type, error) {
 			return b, nil, err
 		}
 		return T{S: ite(c.S, a.S, b.S), Sort: a.Sort}, at, nil
+	case "forallstr", "existsstr":
+		// forallstr(s, body): s ranges over strings
+		if err := argN(2); err != nil {
+			return T{}, nil, err
+		}
+		id, ok := x.Args[0].(*ast.Ident)
+		if !ok {
+			return T{}, nil, ec.errf(x, "binder must be an identifier")
+		}
+		vc.nfresh++
+		bv := fmt.Sprintf("%s!q%d", id.Name, vc.nfresh)
+		sub := *ec
+		sub.env = newEnv(ec.env)
+		sub.env.bind(id.Name, T{S: bv, Sort: SStr}, types.Typ[types.String])
+		vc.noFacts++
+		body, _, err := sub.eval(x.Args[1])
+		vc.noFacts--
+		if err != nil {
+			return body, nil, err
+		}
+		q := "forall"
+		if name == "existsstr" {
+			q = "exists"
+		}
+		return T{S: fmt.Sprintf("(%s ((%s Str)) %s)", q, bv, body.S), Sort: SBool}, types.Typ[types.Bool], nil
 	case "forall", "exists":
 		// forall(i, lo, hi, body)  |  forall(i, body)   (i ranges over Int)
 		if len(x.Args) != 4 && len(x.Args) != 2 {
@@ -747,7 +772,9 @@ func (ec *evalCtx) call(x *ast.CallExpr) (T, types.Type, error) {
 			return body, nil, err
 		}
 		if name == "forall" {
-			return T{S: fmt.Sprintf("(forall ((%s Int)) %s)", bv, implies(rng, body.S)), Sort: SBool}, types.Typ[types.Bool], nil
+			q := fmt.Sprintf("(forall ((%s Int)) %s)", bv, implies(rng, body.S))
+			vc.registerForall(q, bv, rng, body.S)
+			return T{S: q, Sort: SBool}, types.Typ[types.Bool], nil
 		}
 		return T{S: fmt.Sprintf("(exists ((%s Int)) %s)", bv, and(rng, body.S)), Sort: SBool}, types.Typ[types.Bool], nil
 	case "dyn":
@@ -819,6 +846,46 @@ func (ec *evalCtx) call(x *ast.CallExpr) (T, types.Type, error) {
 			return T{}, nil, err
 		}
 		return T{S: eq(app("ityp", v.S), fmt.Sprint(vc.typeID(tt))), Sort: SBool}, types.Typ[types.Bool], nil
+	case "ref":
+		// ref(x): the pointer held by an interface value (or x itself)
+		if err := argN(1); err != nil {
+			return T{}, nil, err
+		}
+		v, _, err := ec.eval(x.Args[0])
+		if err != nil {
+			return v, nil, err
+		}
+		if v.Sort == SIface {
+			return T{S: app("iref", v.S), Sort: SInt}, types.Typ[types.Uintptr], nil
+		}
+		return T{S: v.S, Sort: SInt}, types.Typ[types.Uintptr], nil
+	case "older":
+		// older(a, b): object a was allocated before object b (nil is older than everything)
+		if err := argN(2); err != nil {
+			return T{}, nil, err
+		}
+		a, _, err := ec.eval(x.Args[0])
+		if err != nil {
+			return a, nil, err
+		}
+		b, _, err := ec.eval(x.Args[1])
+		if err != nil {
+			return b, nil, err
+		}
+		return T{S: app("<", app("root", a.S), app("root", b.S)), Sort: SBool}, types.Typ[types.Bool], nil
+	case "notyounger":
+		if err := argN(2); err != nil {
+			return T{}, nil, err
+		}
+		a, _, err := ec.eval(x.Args[0])
+		if err != nil {
+			return a, nil, err
+		}
+		b, _, err := ec.eval(x.Args[1])
+		if err != nil {
+			return b, nil, err
+		}
+		return T{S: app("<=", app("root", a.S), app("root", b.S)), Sort: SBool}, types.Typ[types.Bool], nil
 	case "isfresh":
 		v, _, err := ec.eval(x.Args[0])
 		if err != nil {
@@ -908,6 +975,19 @@ func (ec *evalCtx) applySpec(x ast.Expr, sf *SpecFun, args []T) (T, types.Type, 
 			return T{}, nil, ec.errf(x, "spec %s argument %d: sort %s, want %s", sf.Name, i, args[i].Sort, want)
 		}
 	}
+	if sf.Rec {
+		var as, sorts []string
+		for i, a := range args {
+			as = append(as, a.S)
+			w := sf.Params[i]
+			if ptys[i] != nil {
+				w = vc.sortOf(ptys[i])
+			}
+			sorts = append(sorts, w)
+		}
+		vc.declare(sf.Name, sorts, sf.Ret)
+		return T{S: app(sf.Name, as...), Sort: sf.Ret}, nil, nil
+	}
 	if sf.CBody != "" {
 		sub := *ec
 		sub.env = newEnv(nil)
@@ -926,6 +1006,66 @@ func (ec *evalCtx) applySpec(x ast.Expr, sf *SpecFun, args []T) (T, types.Type, 
 	}
 	vc.declareSpec(sf)
 	return T{S: app(sf.Name, as...), Sort: sf.Ret}, nil, nil
+}
+
+// unfold: the defining equation of a recursive spec function at the given
+// arguments:  f(a, b) == body[a, b]  (inner applications stay uninterpreted).
+func (ec *evalCtx) unfold(text string) (string, error) {
+	e, err := parser.ParseExpr(rewriteImplies(text))
+	if err != nil {
+		return "", fmt.Errorf("unfold %q: %v", text, err)
+	}
+	call, ok := e.(*ast.CallExpr)
+	if !ok {
+		return "", fmt.Errorf("unfold %q: expects f(args)", text)
+	}
+	id, ok := call.Fun.(*ast.Ident)
+	if !ok {
+		return "", fmt.Errorf("unfold %q: expects f(args)", text)
+	}
+	sf, ok := ec.vc.P.Specs[id.Name]
+	if !ok || !sf.Rec {
+		return "", fmt.Errorf("unfold %q: %s is not a rec definition", text, id.Name)
+	}
+	lhs, _, err := ec.eval(call)
+	if err != nil {
+		return "", err
+	}
+	var args []T
+	for _, a := range call.Args {
+		v, _, err := ec.eval(a)
+		if err != nil {
+			return "", err
+		}
+		if v.Sort == "Nil" {
+			v.Sort = SInt
+		}
+		args = append(args, v)
+	}
+	sub := *ec
+	sub.env = newEnv(nil)
+	for i, n := range sf.PNames {
+		var pt types.Type
+		if !isSortName(sf.Params[i]) {
+			te, err := parser.ParseExpr(sf.Params[i])
+			if err != nil {
+				return "", err
+			}
+			pt, err = ec.typeExpr(te)
+			if err != nil {
+				return "", err
+			}
+		}
+		sub.env.bind(n, args[i], pt)
+	}
+	sub.depth = ec.depth + 1
+	ec.vc.noFacts++
+	body, _, err := sub.evalTextT(sf.CBody)
+	ec.vc.noFacts--
+	if err != nil {
+		return "", fmt.Errorf("unfold %s: %v", id.Name, err)
+	}
+	return eq(lhs.S, body.S), nil
 }
 
 func isSortName(s string) bool {
